@@ -31,6 +31,24 @@ func vFileSize(fsys fs.FileSystem, name string) int64 {
 	return st.Size()
 }
 
+// vFixTailCRC (native replays only): the engine treats CRC-32 as an uninterpreted
+// function, so a counterexample in which the reference accepts a record formed by
+// the symbolic tail fixes "stored checksum == crc(bytes)" without the real CRC
+// holding. The replay recomputes the checksum of that first tail record.
+func vFixTailCRC(tail []byte) {
+	if vSymbolic() || vRecorded("tailvalid", 0) != 1 || len(tail) < 10 {
+		return
+	}
+	kl := int(tail[0]) | int(tail[1])<<8
+	vl := int((uint32(tail[2]) | uint32(tail[3])<<8 | uint32(tail[4])<<16 | uint32(tail[5])<<24) & 0x7fffffff)
+	n := 6 + kl + vl
+	if n+4 > len(tail) {
+		return
+	}
+	c := crc32.ChecksumIEEE(tail[:n])
+	tail[n], tail[n+1], tail[n+2], tail[n+3] = byte(c), byte(c>>8), byte(c>>16), byte(c>>24)
+}
+
 // vValidRecords builds p well-formed records with symbolic contents.
 func vValidRecords(p int) []byte {
 	var body []byte
@@ -65,6 +83,7 @@ func hC08iter(p, T, mode int) {
 		return
 	}
 	name := segmentName(0, 1)
+	vFixTailCRC(tail)
 	vWriteFile(fsys, name, refHeader(), body, tail)
 	data := append(append([]byte{}, body...), tail...)
 
@@ -95,6 +114,9 @@ func hC08iter(p, T, mode int) {
 		off += want.size
 		if n >= p {
 			vCover("C08.iter.record-from-tail-accepted")
+			if n == p {
+				vRecord("tailvalid", 1)
+			}
 		}
 	}
 	vAssert(vFileSize(fsys, name) == int64(headerSize+off), "C08.iter.truncated-to-valid-prefix")
@@ -124,6 +146,7 @@ func hC08two(p, T int) {
 		vAssume(kl+vl <= 64)
 	}
 	name1 := segmentName(0, 1)
+	vFixTailCRC(tail)
 	vWriteFile(fsys, name1, refHeader(), body, tail)
 	data := append(append([]byte{}, body...), tail...)
 	k2 := vBytes("k2", 2)
@@ -152,6 +175,9 @@ func hC08two(p, T int) {
 		}
 		vAssert(vEqBytes(rec.key, want.key) && rec.segmentID == 0, "C08.two.first-segment-record")
 		off += want.size
+		if n == p {
+			vRecord("tailvalid", 1)
+		}
 	}
 	rec, err := it.next()
 	vAssert(err == nil, "C08.two.continues-with-next-segment")
@@ -240,6 +266,7 @@ func hC08boundary(d, T int) {
 	vAssume(vl <= 16)
 	vAssume(kl+vl <= 16)
 	name := segmentName(0, 1)
+	vFixTailCRC(tail)
 	vWriteFile(fsys, name, refHeader(), body, tail)
 	data := append(append([]byte{}, body...), tail...)
 	dl := &datalog{opts: opts}
@@ -266,6 +293,9 @@ func hC08boundary(d, T int) {
 		off += want.size
 		if n >= 1 {
 			vCover("C08.boundary.record-across-buffer-refill-accepted")
+			if n == 1 {
+				vRecord("tailvalid", 1)
+			}
 		}
 	}
 	vAssert(vFileSize(fsys, name) == int64(headerSize+off), "C08.boundary.truncated-to-valid-prefix")
